@@ -41,8 +41,13 @@ UPD = {
     'pairs+kw same key': (lambda: [('b', 1), ('a', 1)], {'b': 3}, "[('b', 1), ('a', 1)], b=3",
                           'pair list plus keyword arguments repeating one of its keys'),
     'big': (lambda: dict.fromkeys('abcd', 1), {}, "dict.fromkeys('abcd', 1)", 'dict larger than max_size'),
+    'long pairs': (lambda: [('a', 1), ('b', 2), ('c', 1), ('c', 2)], {}, "[('a', 1), ('b', 2), ('c', 1), ('c', 2)]",
+                   'pair list longer than max_size that repeats a key among its last pairs'),
+    'long pairs 2': (lambda: [('b', 1), ('a', 2), ('b', 2)], {}, "[('b', 1), ('a', 2), ('b', 2)]",
+                     'pair list longer than max_size that repeats a key among its last pairs'),
 }
-IOR = {'dict': (lambda: {'b': 2, 'c': 1}, "{'b': 2, 'c': 1}"), 'pairs': (lambda: [('a', 2)], "[('a', 2)]")}
+IOR = {'dict': (lambda: {'b': 2, 'c': 1}, "{'b': 2, 'c': 1}"), 'pairs': (lambda: [('a', 2)], "[('a', 2)]"),
+       'long pairs': (lambda: [('a', 1), ('b', 2), ('b', 3)], "[('a', 1), ('b', 2), ('b', 3)]")}
 SITE = {'set': '__setitem__', 'getitem': '__getitem__', 'get': 'get', 'getd': 'get', 'del': '__delitem__',
         'setdefault': 'setdefault', 'pop': 'pop', 'popd': 'pop', 'popitem': 'popitem', 'clear': 'clear',
         'copy': 'copy', 'update': 'update', 'ior': '__ior__'}
